@@ -18,7 +18,7 @@ CFG = dict(
     coq_deps=["Lib/Shell", "Model/ShellEscape", "Proofs/ShellEscapeP", "Properties/C16", "Check/C16"],
     ocaml="c16",
     casesv=c16_casesv,
-    rule=("every string of length <= L over the 15-symbol shell alphabet (L=4 quick, 5 thorough), every string of length <= 3 over a 32-symbol alphabet (adds tab, CR, braces, comma, glob/redirect/grouping characters, =, /, %), every single byte, a subset repeated under 10 environment variants (SHELL=fish ..., HOME, LANG, IFS), "
+    rule=("[plus a dictionary stream of ~190 shell idioms ($HOME/, ${x:-y}, $(id), ~root/, x=~/y, redirections, reserved words, quote idioms): alone, as prefix, after ~/, and 3,000 (thorough 40,000) random concatenations] every string of length <= L over the 15-symbol shell alphabet (L=4 quick, 5 thorough), every string of length <= 3 over a 32-symbol alphabet (adds tab, CR, braces, comma, glob/redirect/grouping characters, =, /, %), every single byte, a subset repeated under 10 environment variants (SHELL=fish ..., HOME, LANG, IFS), "
           "'~/'-prefixed variants, and seeded random non-NUL byte strings; each case is a distinct input string; "
           "non-trivial = distinct case lines"),
     trusted_base=[HARNESS_TB, EXTRACT_TB, "dash and bash stand for 'a POSIX shell'; Lib/Shell.v is my reading of XCU 2.2-2.3, "
